@@ -86,13 +86,19 @@ def harvest_int_literals(modnames, lo=2, hi=10 ** 9):
             tree = ast.parse(src)
         except Exception:
             continue
+        names = {}
+        for node in ast.walk(tree):                       # NAME = <int literal>  (so that 1 << _BITS can be evaluated below)
+            if isinstance(node, (ast.Assign, ast.AnnAssign)) and isinstance(getattr(node, "value", None), ast.Constant) and isinstance(node.value.value, int):
+                for t in (node.targets if isinstance(node, ast.Assign) else [node.target]):
+                    if isinstance(t, ast.Name):
+                        names[t.id] = node.value.value
         for node in ast.walk(tree):
             if isinstance(node, ast.Constant) and isinstance(node.value, int) and not isinstance(node.value, bool):
                 if lo <= node.value <= hi:
                     out.add(node.value)
-            elif isinstance(node, ast.BinOp) and isinstance(node.op, (ast.LShift, ast.Pow)):
+            elif isinstance(node, ast.BinOp) and isinstance(node.op, (ast.LShift, ast.Pow, ast.Mult)):
                 try:
-                    v = eval(compile(ast.Expression(node), "<lit>", "eval"), {"__builtins__": {}})     # constant expressions like 1 << 14
+                    v = eval(compile(ast.Expression(node), "<lit>", "eval"), {"__builtins__": {}}, dict(names))     # constant expressions like 1 << 14, 1 << _BITS
                     if isinstance(v, int) and lo <= v <= hi:
                         out.add(v)
                 except Exception:
